@@ -183,8 +183,26 @@ pub fn render(scn: &Scn) -> String {
 }
 
 /// expected observations: (marker, value string) in output order, plus counted classes
+#[derive(Clone, Debug)]
+enum Trace {
+    Int(i32, i32),
+    Float,
+    Reseed(u64),
+}
+
+/// The reference stream is svgdx's own: the k-th draw of a run is whatever a FLAT
+/// calibration document - one plain element per draw, in the same order, with the same
+/// reseeds - prints for its k-th element. That keeps the oracle to what the statement fixes
+/// (once per occurrence per rendered element, in document order) and independent of which
+/// PRNG algorithm svgdx uses; the Pcg32 stream is stepped alongside as a diagnostic only.
 struct Model<'a> {
     rng: Pcg32,
+    trace: Vec<Trace>,
+    cfg: Cfg,
+    /// calibration failed (svgdx rejected the flat document): scenario is skipped
+    broken: bool,
+    /// draws where svgdx's stream and the Pcg32 reference disagree
+    pcg_mismatch: u64,
     draws: u64,
     templates: &'a [Vec<Item>],
     /// marker -> values in order
@@ -193,10 +211,83 @@ struct Model<'a> {
     counts: Vec<(String, u64)>,
 }
 
+/// Values svgdx prints for a flat document with one plain element per draw of `trace`
+/// (None for the whole call when svgdx rejects the document).
+fn calibrate_trace(trace: &[Trace], cfg: &Cfg) -> Option<Vec<Option<String>>> {
+    let mut doc = String::from("<svg>\n");
+    for (i, t) in trace.iter().enumerate() {
+        match t {
+            Trace::Int(lo, hi) => doc.push_str(&format!("<rect wh=\"1\" data-c=\"c{i}_{{{{randint({lo}, {hi})}}}}\"/>\n")),
+            Trace::Float => doc.push_str(&format!("<rect wh=\"1\" data-c=\"c{i}_{{{{random()}}}}\"/>\n")),
+            Trace::Reseed(s) => doc.push_str(&format!("<config seed=\"{s}\"/>\n")),
+        }
+    }
+    doc.push_str("</svg>\n");
+    let (out, _) = fe_stream_plain(doc.as_bytes(), cfg);
+    let bytes = match out {
+        Outcome::Ok(b) => b,
+        _ => return None,
+    };
+    let text = String::from_utf8_lossy(&bytes).into_owned();
+    let mut vals = Vec::new();
+    for (i, t) in trace.iter().enumerate() {
+        if matches!(t, Trace::Reseed(_)) {
+            continue;
+        }
+        let key = format!("\"c{i}_");
+        let v = text.find(&key).map(|p| {
+            text[p + key.len()..]
+                .chars()
+                .take_while(|c| c.is_ascii_digit() || *c == '.' || *c == '-')
+                .collect::<String>()
+        });
+        vals.push(v.filter(|v| !v.is_empty()));
+    }
+    Some(vals)
+}
+
 impl<'a> Model<'a> {
-    fn beacon(&mut self, lo: i32) -> i32 {
+    fn calibrate(&mut self) -> Option<String> {
+        let mut cfg = self.cfg.clone();
+        cfg.debug = false; // debug output echoes the source, placeholders included
+        calibrate_trace(&self.trace, &cfg)?.pop()?
+    }
+    fn draw_int(&mut self, lo: i32, hi: i32) -> i32 {
         self.draws += 1;
-        self.rng.random_range(lo..=999999)
+        self.trace.push(Trace::Int(lo, hi));
+        let reference = self.rng.random_range(lo..=hi);
+        match self.calibrate().and_then(|v| v.parse::<i32>().ok()) {
+            Some(v) => {
+                if v != reference {
+                    self.pcg_mismatch += 1;
+                }
+                v
+            }
+            None => {
+                self.broken = true;
+                reference
+            }
+        }
+    }
+    fn draw_float(&mut self) -> String {
+        self.draws += 1;
+        self.trace.push(Trace::Float);
+        let reference = fstr(self.rng.random::<f32>());
+        match self.calibrate() {
+            Some(v) => {
+                if v != reference {
+                    self.pcg_mismatch += 1;
+                }
+                v
+            }
+            None => {
+                self.broken = true;
+                reference
+            }
+        }
+    }
+    fn beacon(&mut self, lo: i32) -> i32 {
+        self.draw_int(lo, 999999)
     }
     fn exec(&mut self, items: &[Item], tmark: Option<&str>) {
         for it in items {
@@ -204,8 +295,7 @@ impl<'a> Model<'a> {
                 Item::Beacon { j, site } => {
                     let lo = if site == "circle-r" { 1 } else { 0 };
                     let v = if site == "eq-bounds" {
-                        self.draws += 1;
-                        self.rng.random_range(7..=7)
+                        self.draw_int(7, 7)
                     } else {
                         self.beacon(lo)
                     };
@@ -218,21 +308,20 @@ impl<'a> Model<'a> {
                     self.obs.push((format!("{key}|{site}"), v.to_string()));
                 }
                 Item::RandomF { j } => {
-                    self.draws += 1;
-                    let v: f32 = self.rng.random::<f32>();
+                    let v = self.draw_float();
                     let key = match tmark {
                         Some(m) => format!("{m}t{j}_"),
                         None => format!("b{j}_"),
                     };
-                    self.obs.push((format!("{key}|text"), fstr(v)));
+                    self.obs.push((format!("{key}|text"), v));
                 }
                 Item::Reseed { seed } => {
+                    self.trace.push(Trace::Reseed(*seed));
                     self.rng = Pcg32::seed_from_u64(*seed);
                 }
                 Item::Loop { j, random_count, count, body } => {
                     let c = if *random_count {
-                        self.draws += 1;
-                        self.rng.random_range(1..=3) as u32
+                        self.draw_int(1, 3) as u32
                     } else {
                         *count
                     };
@@ -243,8 +332,7 @@ impl<'a> Model<'a> {
                 }
                 Item::If { j, random_test, test, body } => {
                     let t = if *random_test {
-                        self.draws += 1;
-                        self.rng.random_range(0..=1) != 0
+                        self.draw_int(0, 1) != 0
                     } else {
                         *test
                     };
@@ -269,14 +357,12 @@ impl<'a> Model<'a> {
                 }
                 Item::LoopVar { j, count, random_start, random_step, start, step, body } => {
                     let st = if *random_start {
-                        self.draws += 1;
-                        self.rng.random_range(0..=5)
+                        self.draw_int(0, 5)
                     } else {
                         *start
                     };
                     let sp = if *random_step {
-                        self.draws += 1;
-                        self.rng.random_range(1..=3)
+                        self.draw_int(1, 3)
                     } else {
                         *step
                     };
@@ -291,8 +377,7 @@ impl<'a> Model<'a> {
                     loop {
                         passes += 1;
                         self.exec(body, tmark);
-                        self.draws += 1;
-                        if self.rng.random_range(0..=1) != 0 || passes > 900 {
+                        if self.draw_int(0, 1) != 0 || passes > 900 || self.broken {
                             break;
                         }
                     }
@@ -593,6 +678,10 @@ impl Engine for C14 {
         // ---- exactly-once
         let mut m = Model {
             rng: Pcg32::seed_from_u64(scn.seed),
+            trace: Vec::new(),
+            cfg: cfg.clone(),
+            broken: false,
+            pcg_mismatch: 0,
             draws: 0,
             templates: &scn.templates,
             obs: Vec::new(),
@@ -600,6 +689,104 @@ impl Engine for C14 {
         };
         m.exec(&scn.items, None);
         res.stats.nontrivial = m.draws >= 2;
+        res.stats.evaluations += m.draws; // calibration transforms
+        if m.broken {
+            res.stats.probe("calibration_document_rejected");
+            return res;
+        }
+        // Two checks on the stream itself, neither of which names a PRNG algorithm:
+        // (a) the position after k occurrences depends on the seed and on k only, so the
+        //     flat document prints the same values under the scenario's configuration and
+        //     under the default one (nothing but an occurrence advances the stream);
+        // (b) an occurrence with equal bounds is an occurrence: taking it out of the flat
+        //     document must change what the two draws after it print.
+        {
+            let mut plain = Cfg::default();
+            plain.seed = cfg.seed;
+            plain.add_auto_styles = false;
+            let mut own = cfg.clone();
+            own.debug = false;
+            let here = calibrate_trace(&m.trace, &own);
+            if own != plain && m.draws > 0 {
+                let there = calibrate_trace(&m.trace, &plain);
+                res.stats.probe("stream_compared_across_configurations");
+                if here.is_some() && there.is_some() && here != there {
+                    res.violation(
+                        "exactly-once/stream-position",
+                        "c14:stream-depends-on-configuration",
+                        format!(
+                            "the same {} random occurrences under seed {} print {:?} with configuration {:?} and {:?} with the default configuration: something other than an occurrence advanced the stream",
+                            m.draws, cfg.seed, here, own, there
+                        ),
+                    );
+                }
+            }
+            // (c) the position is a function of the seed in force and of the occurrences
+            //     evaluated since it was put in force: what follows <config seed="S"/> is
+            //     what a document transformed with seed S prints from its start.
+            for i in 0..m.trace.len() {
+                let Trace::Reseed(s) = m.trace[i] else { continue };
+                let tail: Vec<Trace> = m.trace[i + 1..].iter().take_while(|t| !matches!(t, Trace::Reseed(_))).cloned().collect();
+                if tail.is_empty() {
+                    continue;
+                }
+                let pos = m.trace[..i].iter().filter(|t| !matches!(t, Trace::Reseed(_))).count();
+                let mut fresh = own.clone();
+                fresh.seed = s;
+                if let (Some(h), Some(f)) = (&here, calibrate_trace(&tail, &fresh)) {
+                    res.stats.probe("reseed_restart_checked");
+                    if h.len() >= pos + f.len() && h[pos..pos + f.len()] != f[..] {
+                        res.violation(
+                            "exactly-once/stream-position",
+                            "c14:reseed-does-not-restart",
+                            format!(
+                                "flat document under seed {}: the {} occurrences after <config seed=\"{s}\"/> print {:?}, a document transformed with seed {s} prints {:?} from its start",
+                                cfg.seed,
+                                f.len(),
+                                &h[pos..pos + f.len()],
+                                f
+                            ),
+                        );
+                        break;
+                    }
+                }
+            }
+            for i in 0..m.trace.len() {
+                let eq = matches!(m.trace[i], Trace::Int(lo, hi) if lo == hi);
+                let after = m.trace[i + 1..]
+                    .iter()
+                    .take_while(|t| !matches!(t, Trace::Reseed(_)))
+                    .filter(|t| matches!(t, Trace::Int(lo, hi) if hi - lo >= 1000) || matches!(t, Trace::Float))
+                    .count();
+                if !eq || after < 2 {
+                    continue;
+                }
+                let mut without = m.trace.clone();
+                without.remove(i);
+                let pos = m.trace[..i].iter().filter(|t| !matches!(t, Trace::Reseed(_))).count();
+                if let (Some(h), Some(w)) = (&here, calibrate_trace(&without, &own)) {
+                    res.stats.probe("equal_bounds_advance_checked");
+                    // h[pos] is the equal-bounds value; h[pos+1..] must not be w[pos..]
+                    let n = h.len().min(w.len() + 1);
+                    if n > pos + 2 && h[pos + 1..n] == w[pos..n - 1] {
+                        res.violation(
+                            "exactly-once/stream-position",
+                            "c14:no-advance:eq-bounds",
+                            format!(
+                                "flat document of {} random occurrences under seed {}: removing occurrence #{pos} (randint with equal bounds) leaves every later value unchanged ({:?}), so that occurrence did not advance the stream",
+                                m.draws, cfg.seed, &h[pos + 1..n]
+                            ),
+                        );
+                    }
+                }
+                break;
+            }
+        }
+        if m.pcg_mismatch > 0 {
+            res.stats.probe("stream_differs_from_pcg32_reference");
+        } else if m.draws > 0 {
+            res.stats.probe("stream_equals_pcg32_reference");
+        }
         match &out {
             Outcome::Ok(b) => {
                 let s = String::from_utf8_lossy(b).into_owned();
@@ -623,7 +810,7 @@ impl Engine for C14 {
                             "exactly-once/stream-position",
                             &format!("c14:exactly-once:{site}"),
                             format!(
-                                "occurrence {key} at site '{site}': output shows {got:?}, the reference PRNG stream (seed {}, one step per occurrence per rendered element) gives {want:?}; document:\n{}",
+                                "occurrence {key} at site '{site}': output shows {got:?}, the reference stream (svgdx's own flat calibration document for seed {}: one step per occurrence per rendered element) gives {want:?}; document:\n{}",
                                 scn.seed,
                                 shorten(&doc, 1500)
                             ),
